@@ -257,6 +257,88 @@ def emit_cert(snap, terms, nonterms):
     return '\n'.join(out)
 
 
+def item_certificate(snap, terms, nonterms):
+    """
+    Certificate for Proofs/LRTotal.driverTotal (checked by the Lean kernel, not trusted): the LR(0) item sets of the
+    states, recomputed here from the grammar by following the transitions of the tables from state 0.
+      kitems[s] : kernel items of s as quadruples (p, d, lhs, len) with 1 <= d <= len = |rhs(p)|
+      need[s]   : nonterminals A having a closure item A -> . alpha in s (so goto[s][A] must exist)
+      eps       : the empty productions as pairs (p, lhs)
+    """
+    prods = snap['prods']
+    nix = {n: i for i, n in enumerate(nonterms)}
+    ntset = set(nonterms)
+    by_lhs = {}
+    for pi, (name, rhs, _) in enumerate(prods):
+        by_lhs.setdefault(name, []).append(pi)
+
+    def closure(kernel):
+        items = set(kernel)
+        work = list(kernel)
+        while work:
+            p, d = work.pop()
+            rhs = prods[p][1]
+            if d < len(rhs) and rhs[d] in ntset:
+                for p2 in by_lhs.get(rhs[d], ()):
+                    if (p2, 0) not in items:
+                        items.add((p2, 0))
+                        work.append((p2, 0))
+        return items
+
+    nstates = max(snap['action'].keys()) + 1
+    trans = {}
+    for s, row in snap['action'].items():
+        for t, a in row.items():
+            if a > 0:
+                trans.setdefault(s, []).append((t, a))
+    for s, row in snap['goto'].items():
+        for n, t in row.items():
+            trans.setdefault(s, []).append((n, t))
+    kern = {0: set([(0, 0)])}
+    items = {}
+    queue = [0]
+    while queue:
+        q = queue.pop()
+        I = closure(kern[q])
+        items[q] = I
+        for sym, s2 in trans.get(q, ()):
+            k = set((p, d + 1) for (p, d) in I if d < len(prods[p][1]) and prods[p][1][d] == sym)
+            if s2 not in kern:
+                kern[s2] = k
+                queue.append(s2)
+            elif not k <= kern[s2]:
+                kern[s2] |= k
+                queue.append(s2)
+    kitems, need = [], []
+    for s in range(nstates):
+        ks = sorted((p, d) for (p, d) in kern.get(s, ()) if d >= 1 and p != 0)
+        kitems.append([(p, d, nix[prods[p][0]], len(prods[p][1])) for p, d in ks])
+        need.append(sorted(set(nix[prods[p][0]] for (p, d) in items.get(s, ()) if d == 0 and p != 0)))
+    eps = [(pi, nix[name]) for pi, (name, rhs, _) in enumerate(prods) if not rhs]
+    return kitems, need, eps
+
+
+def emit_items(snap, terms, nonterms):
+    kitems, need, eps = item_certificate(snap, terms, nonterms)
+    out = ['namespace CalmVerif.Gen.Tables.Items\n']
+    CH = 25
+    out.append('def chunk : Nat := %d' % CH)
+
+    def flat(rows):
+        return lean_list([lean_list([str(x) for x in r]) for r in rows])
+    kflat = [[x for it in row for x in it] for row in kitems]
+    for nm, rows in (('kitems', kflat), ('need', need)):
+        names = []
+        for c in range(0, len(rows), CH):
+            cn = '%sChunk%d' % (nm, c // CH)
+            names.append(cn)
+            out.append('def %s : List (List Nat) := %s' % (cn, flat(rows[c:c + CH])))
+        out.append('def %s : List (List (List Nat)) := %s' % (nm, lean_list(names)))
+    out.append('def eps : List Nat := %s' % lean_list([str(x) for pr in eps for x in pr]))
+    out.append('\nend CalmVerif.Gen.Tables.Items\n')
+    return '\n'.join(out)
+
+
 def generate():
     snaps = snapshots()
     terms, nonterms = canon_symbols(snaps['Cached'])
@@ -268,4 +350,5 @@ def generate():
     for ns in ('Cached', 'Fresh', 'Reopt'):
         out['CalmVerif/Gen/Tables/%s.lean' % ns] = emit(ns, snaps[ns], terms, nonterms)
     out['CalmVerif/Gen/Tables/Cert.lean'] = emit_cert(snaps['Cached'], terms, nonterms)
+    out['CalmVerif/Gen/Tables/Items.lean'] = emit_items(snaps['Cached'], terms, nonterms)
     return out
